@@ -98,13 +98,13 @@ func init() {
 		Assumptions: []string{"equivalence is judged by evaluation over probe rows (as C03), not by text", "queries the inline renderer rejects are outside the quantifier"},
 		Bounds: func(tier string) map[string]any {
 			if tier == "thorough" {
-				return map[string]any{"value_trees": "depth 1 over all leaves", "trees": "T(21,2)", "N_tok": 5, "substitution": "all leaves + depth-1 compounds over 6 leaves"}
+				return map[string]any{"value_trees": "depth 1 over all leaves", "trees": "T(25,2)", "N_tok": 5, "substitution": "all leaves + depth-1 compounds over 6 leaves"}
 			}
-			return map[string]any{"value_trees": "depth 1 over all leaves", "trees": "T(21,1) ∪ T(6,2)", "N_tok": 4, "substitution": "all leaves"}
+			return map[string]any{"value_trees": "depth 1 over all leaves", "trees": "T(25,1) ∪ T(6,2)", "N_tok": 4, "substitution": "all leaves"}
 		},
 		Deadline: func(tier string) int {
 			if tier == "thorough" {
-				return 3000
+				return 1000
 			}
 			return 300
 		},
